@@ -15,6 +15,10 @@ PREMISES = {
         ("C07", ["C07.a", "C07.b"], "the total paid falls short of what arrived by dust only: every token unbonded into a batch is recorded as a claim of its sender "
                                      "(a request dropped at recording time is undelegated for nobody)"),
     ],
+    "C15": [
+        ("C16", ["C16.a", "C16.g"], "a holder accrues on its balance: every bSei balance change reaches the reward contract (same accounts, signs, amounts; on every "
+                                     "success path), else the old owner keeps accruing on tokens it no longer holds"),
+    ],
     "C16": [
         ("C18", ["C18.a"], "the reward contract's total equals the bSei total supply: every bSei variant changes the supply by exactly the signed sum of its balance "
                             "deltas, which is what the mirror messages carry"),
@@ -34,13 +38,16 @@ PREMISES = {
         ("C08", ["C08.g"], "the rate's denominator counts the not-yet-undelegated requests: a roll-over must not leave the closed batch's requests pending"),
     ],
     "C04": [
+        ("C06", ["C06.d"], "only slashing lowers a rate: the delegated sum the books are compared with counts every delegation of the hub in the staking denom (a "
+                            "delegation left out of the sum is booked as a loss)"),
         ("C08", ["C08.g"], "requests of a closed batch left pending stay in the rate's denominator and are undelegated twice: the rate drops without slashing"),
         ("C03", ["C03.a", "C03.b", "C03.c"], "a rate can only be shown not to fall if it is pool / (supply + requests) of the same token, recomputed over the supply as "
                                                "changed by exactly this operation's mints and burns, and if no more than floor(value / rate) tokens are minted for a value"),
-        ("C02", ["C02.a", "C02.c", "C02.g"], "the pool of a token must grow by the whole payment (bond), shrink by exactly the undelegated products (unbond) and a "
+        ("C02", ["C02.a", "C02.c", "C02.f", "C02.g"], "the pool of a token must grow by the whole payment (bond), shrink by exactly the undelegated products (unbond) and a "
                                                "conversion must credit the destination pool with the value it takes from the source pool - otherwise one rate drops"),
     ],
     "C06": [
+        ("C02", ["C02.e"], "the next check inside bond / unbond / convert books the loss: every pricing handler runs the resync and writes STATE only after it"),
         ("C01", ["C01.f", "C01.g", "C01.h"], "last clause of C06: loss on stake slashed while unbonding is spread over the batches released together (one group for the "
                                                "sum and the release), per token type, measured on the coins that actually arrived"),
     ],
